@@ -550,7 +550,9 @@ class NDNApp:
             return None
         if validator is None:
             raise ValueError('Data Validator must not be None when expressing an Interest.')
-        final_name = enc.Name.normalize(final_name)
+        # The name (and the implicit digest in it) is kept until the Interest finishes:
+        # do not keep views of buffers the caller may reuse after this call
+        final_name = [bytes(comp) for comp in enc.Name.normalize(final_name)]
         future = aio.get_running_loop().create_future()
         # Handle implicit SHA256
         if (enc.Component.get_type(final_name[-1]) == enc.Component.TYPE_IMPLICIT_SHA256
